@@ -76,6 +76,18 @@ var syncScenarios = []syncScenario{
 	{"hcb-short-id", csync.RPCEndpointGetHighestCommonBlock, true, false, 1, func(bs []*blockchain.Block) []byte {
 		return (&csync.GetHighestCommonBlockRequest{IDs: [][]byte{bs[1].Header.ID, make([]byte, 31)}}).Encode()
 	}},
+	{"hcb-long-bad-tail", csync.RPCEndpointGetHighestCommonBlock, true, false, 1, func(bs []*blockchain.Block) []byte {
+		// 130 IDs, all 32 bytes except the one at index 117: malformed wherever the bad ID sits
+		ids := [][]byte{}
+		for i := 0; i < 130; i++ {
+			if i == 117 {
+				ids = append(ids, make([]byte, 31))
+			} else {
+				ids = append(ids, foreign32(byte(i)))
+			}
+		}
+		return (&csync.GetHighestCommonBlockRequest{IDs: ids}).Encode()
+	}},
 	{"bfi-nil-direct", csync.RPCEndpointGetBlocksFromID, true, true, 1, func([]*blockchain.Block) []byte { return nil }},
 	{"bfi-garbage", csync.RPCEndpointGetBlocksFromID, true, false, 1, func([]*blockchain.Block) []byte { return []byte{0xff, 0xff, 0xff} }},
 	{"bfi-short-id", csync.RPCEndpointGetBlocksFromID, true, false, 1, func([]*blockchain.Block) []byte {
@@ -88,6 +100,13 @@ var syncScenarios = []syncScenario{
 	{"last", csync.RPCEndpointGetLastBlock, false, false, 8, func([]*blockchain.Block) []byte { return nil }},
 	{"hcb-known", csync.RPCEndpointGetHighestCommonBlock, false, false, 8, func(bs []*blockchain.Block) []byte {
 		return (&csync.GetHighestCommonBlockRequest{IDs: [][]byte{bs[0].Header.ID, bs[2].Header.ID}}).Encode()
+	}},
+	{"hcb-long-valid", csync.RPCEndpointGetHighestCommonBlock, false, false, 4, func(bs []*blockchain.Block) []byte {
+		ids := [][]byte{bs[1].Header.ID}
+		for i := 0; i < 129; i++ {
+			ids = append(ids, foreign32(byte(i)))
+		}
+		return (&csync.GetHighestCommonBlockRequest{IDs: ids}).Encode()
 	}},
 	{"hcb-unknown", csync.RPCEndpointGetHighestCommonBlock, false, false, 8, func([]*blockchain.Block) []byte {
 		return (&csync.GetHighestCommonBlockRequest{IDs: [][]byte{foreign32(1), foreign32(2)}}).Encode()
